@@ -44,6 +44,9 @@ PANIC_API = [
     (r'^std::process::abort$', 'abort'),
     (r'^std::slice::(from_raw_parts|from_raw_parts_mut)$', 'unsafe'),
     (r'^tokio::runtime::Runtime::block_on$', 'block_on'),
+    # procfs-core 0.17 slices the path column of a maps line at fixed byte offsets (`/SYSV` + 8 hex digits, `[stack:..]`) and
+    # multiplies smaps values by 1024 unchecked: it panics on malformed lines (audit round, confirmed)
+    (r'procfs_core::(FromRead>?::from_read|FromBufRead>?::from_buf_read)$', 'procfs'),
     (r'^std::iter::Iterator::(max_by_key|min_by_key)$', None),
 ]
 PANIC_API = [(re.compile(p), k) for p, k in PANIC_API]
